@@ -96,6 +96,7 @@ SubOf(d, m, s) ==
        ELSE IF dep.v.gen # <<>> THEN Err("invalid_typ_statement")
        ELSE Ok([name |-> F(s.id, s.k), node |-> [dep.v.node EXCEPT !.typ = s.typ]])
   ELSE IF s.typ \in Bindings(m) THEN Err("crash")
+  ELSE IF \E a \in SeqSet(s.args) : a \in Bindings(m) THEN Err("crash")      \* a binding of the enclosing module passed on as an argument
   ELSE LET base == Arch(d, s.typ) IN
        IF IsErr(base) THEN base
        ELSE IF Len(base.v.gen) # Len(s.args) THEN Err("invalid_typ_statement")
